@@ -75,9 +75,11 @@ class PyKdebugParser:
         if self.filter_process is not None:
             trace_generator = filter(self._filter_process_callback, trace_generator)
         if add_trace_class:
-            trace_generator = filter(lambda t: t.ktraces[0].eventid >> 24 != DBG_TRACE, trace_generator)
+            trace_generator = filter(lambda t: t.ktraces[0].eventid >> 24 != DBG_TRACE or
+                                     self._is_eventid_allowed(t.ktraces[0].eventid), trace_generator)
         if add_fs_class:
-            trace_generator = filter(lambda t: t.ktraces[0].eventid >> 24 != DBG_FSYSTEM, trace_generator)
+            trace_generator = filter(lambda t: t.ktraces[0].eventid >> 24 != DBG_FSYSTEM or
+                                     self._is_eventid_allowed(t.ktraces[0].eventid), trace_generator)
         return trace_generator
 
     def formatted_traces(self, kdebug: io.IOBase, trace_codes=None):
